@@ -200,7 +200,8 @@ type eventList struct {
 	sync.Mutex
 	seqs    sequenceNumSlice
 	events  map[sequenceNum]*event
-	lastSeq sequenceNum
+	lastSeq sequenceNum // highest sequence number evicted so far (rollover aware)
+	hasLast bool        // lastSeq is valid (an event has been evicted)
 	maxSize int
 	timeout time.Duration
 }
@@ -212,6 +213,26 @@ func newEventList(maxSize int, timeout time.Duration) *eventList {
 		maxSize: maxSize,
 		timeout: timeout,
 	}
+}
+
+// lostBefore returns the number of sequence numbers skipped between the last
+// in-order event that was evicted and seq, and records seq as the new last
+// sequence number. Duplicate and late (out of order) sequence numbers do not
+// count as a gap and do not move the last sequence number backwards.
+func (l *eventList) lostBefore(seq sequenceNum) int {
+	if !l.hasLast {
+		l.hasLast = true
+		l.lastSeq = seq
+		return 0
+	}
+
+	// Distance from lastSeq to seq, handling sequence number rollover.
+	ahead := seq - l.lastSeq
+	if ahead == 0 || ahead > maxSortRange {
+		return 0
+	}
+	l.lastSeq = seq
+	return int(ahead - 1)
 }
 
 // remove the first event (lowest sequence) in the list.
@@ -242,10 +263,7 @@ func (l *eventList) Clear() ([]*event, int) {
 		seq = l.seqs[0]
 		event := l.events[seq]
 
-		if l.lastSeq > 0 {
-			lost += int(seq - l.lastSeq - 1)
-		}
-		l.lastSeq = seq
+		lost += l.lostBefore(seq)
 		evicted = append(evicted, event)
 		l.remove()
 	}
@@ -301,10 +319,7 @@ func (l *eventList) CleanUp() ([]*event, int) {
 		event := l.events[seq]
 
 		if event.complete || size > l.maxSize || event.IsExpired() {
-			if l.lastSeq > 0 {
-				lost += int(seq - l.lastSeq - 1)
-			}
-			l.lastSeq = seq
+			lost += l.lostBefore(seq)
 			evicted = append(evicted, event)
 			l.remove()
 			continue
